@@ -14,9 +14,13 @@ pub enum Route {
     Prepend,
     /// children added right to left with insert_before on the previously added sibling
     InsertBefore,
+    /// like BottomUp, but an element's declarations and attributes are attached only after its children
+    AttrsLast,
+    /// declarations first, then the children (appended), then the attributes
+    DeclsChildrenAttrs,
 }
 
-pub const ROUTES: [Route; 4] = [Route::TopDown, Route::BottomUp, Route::Prepend, Route::InsertBefore];
+pub const ROUTES: [Route; 6] = [Route::TopDown, Route::BottomUp, Route::Prepend, Route::InsertBefore, Route::AttrsLast, Route::DeclsChildrenAttrs];
 
 #[derive(Clone, Copy, Debug, PartialEq, Eq)]
 pub enum AttrStyle {
@@ -47,7 +51,13 @@ pub fn new_leaf(xot: &mut Xot, a: &ANode) -> Node {
 }
 
 fn add_abnormal(xot: &mut Xot, e: Node, a: &ANode, style: AttrStyle, h: &mut HTree) -> Result<(), String> {
-    for (p, u) in &a.decls {
+    add_abnormal_part(xot, e, a, style, h, true, true)
+}
+
+fn add_abnormal_part(xot: &mut Xot, e: Node, a: &ANode, style: AttrStyle, h: &mut HTree, decls: bool, attrs: bool) -> Result<(), String> {
+    let no_decls: Vec<(String, String)> = Vec::new();
+    let no_attrs: Vec<(crate::adoc::QName, String)> = Vec::new();
+    for (p, u) in if decls { &a.decls } else { &no_decls } {
         let pid = xot.add_prefix(p);
         let nid = xot.add_namespace(u);
         match style {
@@ -66,7 +76,7 @@ fn add_abnormal(xot: &mut Xot, e: Node, a: &ANode, style: AttrStyle, h: &mut HTr
             }
         }
     }
-    for (q, v) in &a.attrs {
+    for (q, v) in if attrs { &a.attrs } else { &no_attrs } {
         let nid = xot.add_namespace(&q.ns);
         let name = xot.add_name_ns(&q.local, nid);
         match style {
@@ -99,10 +109,25 @@ pub fn build(xot: &mut Xot, a: &ANode, route: Route, style: AttrStyle) -> Result
         attrs: Vec::new(),
         children: Vec::new(),
     };
-    if a.kind == AKind::Elem {
+    let late = matches!(route, Route::AttrsLast | Route::DeclsChildrenAttrs);
+    if a.kind == AKind::Elem && !late {
         add_abnormal(xot, node, a, style, &mut h)?;
     }
+    if a.kind == AKind::Elem && route == Route::DeclsChildrenAttrs {
+        add_abnormal_part(xot, node, a, style, &mut h, true, false)?;
+    }
     match route {
+        Route::AttrsLast | Route::DeclsChildrenAttrs => {
+            for c in &a.children {
+                let hc = build(xot, c, route, style)?;
+                xot.append(node, hc.node)
+                    .map_err(|e| format!("append failed: {:?}", e))?;
+                h.children.push(hc);
+            }
+            if a.kind == AKind::Elem {
+                add_abnormal_part(xot, node, a, style, &mut h, route == Route::AttrsLast, true)?;
+            }
+        }
         Route::TopDown => {
             for c in &a.children {
                 // link the bare child first, then fill it in
